@@ -759,6 +759,10 @@ REFINED = [
     "debug_head_tail_true_digits); ops u.dbg / i.dbg run the mirrored model, spec = closed form debugSpec (also compared with C08's debugInt)",
     "to_chunks / from_chunks mutually inverse IN BOTH DIRECTIONS on words for every chunk size k >= 1, word-aligned shortcut included: from(to(n)) = n for every n, "
     "to(from(cs)) = cs for every canonical chunk list (chunks_inverse); unsigned bytes likewise (ubig_bytes_inverse_canonical)",
+    "convert.rs big-endian byte functions as the separate code they are (Model/Text/BytesBE.lean: words_to_be_bytes, to_be_bytes, to_signed_be_bytes with "
+    "insert(0, 0xff) for -(2^(8k)) and the sign byte at the front, word/dword_from_be_bytes_partial, from_be_bytes, from_signed_be_bytes, from_be_bytes_large with "
+    "rchunks_exact + remainder), executed by the driver for u.be / i.be / u.from_be / i.from_be: equal to the mirror-image model, hence to the positional / two's "
+    "complement specification, mutually inverse, all W = 8k (be_bytes_mirrored)",
     "Tie A: radix::digit_from_ascii_byte (three byte ranges, offsets, `res < radix`), is_radix_valid, MIN_RADIX, MAX_RADIX regenerated from radix.rs on every run "
     "(Dashu/Gen/TextDigit.lean); the hand model of the grammar theorems (digitOf, validRadix) equals the regenerated text for every byte and radix "
     "(digit_table_regenerated)",
@@ -769,8 +773,6 @@ FRONTIER = [
     "theorems hold for exact arithmetic, which is what those kernels are proved to compute)",
     "shift::shr_in_place / shl_in_place / add_in_place inside the chunk routines, rem_by_word / div_by_word_in_place / normalize / div_rem_highest_word / "
     "log_word_base inside Debug are builder-div's / C01's / C10's mirrored models with their proved specs, imported and composed (Props/C07Debug, chunks_model)",
-    "big-endian byte functions (words_to_be_bytes, from_be_bytes_large with rchunks_exact, dword_from_be_bytes_partial: separate code in convert.rs) are modelled as "
-    "mirror images (list reversal) of the little-endian ones; kept: the tie is the correspondence run (every length 0..40 x top byte x body, both directions)",
     "padIntegral (Model/Text/Spec.lean) is a hand transcription of core::fmt::Formatter::pad_integral — Rust's standard library is outside /repo, so no theorem "
     "can tie it; the harness compares every flag combination with Rust's primitive integer formatting on values < 2^128 (`prim-disagree`)",
     "two's complement bytes: decode(encode(z)) = z is proved for every integer; the converse (encode(decode(b)) = b) only holds for minimal-length encodings and "
@@ -790,7 +792,7 @@ THEOREMS = ["Dashu.Props.C07." + t for t in [
     "medium_on_words", "write_chunk_on_words", "dword_split_on_words",
     "fast_divide_small_exact", "swar_digit_chunk", "low_layer_constants_regenerated", "digit_writer_swar_sound",
     "digit_writer_write_invariant", "print_on_mirrored_low_layer", "raw_digits_on_mirrored_division",
-    "write_pieces_recorded", "write_pieces_shape", "print_on_recorded_pieces", "chunks_inverse", "digit_table_regenerated", "chunk_spec_guards", "ubig_bytes_inverse_canonical"]] + [
+    "write_pieces_recorded", "write_pieces_shape", "print_on_recorded_pieces", "chunks_inverse", "digit_table_regenerated", "chunk_spec_guards", "ubig_bytes_inverse_canonical", "be_bytes_mirrored"]] + [
     "Dashu.Props.C07Debug." + t for t in ["debug_head_tail_on_words", "debug_text", "debug_text_est_one", "debug_head_tail_true_digits"]]
 EXPLANATION = ("Lean theorems for every word size, radix 2..36 and integer: the printing model (all size classes of both printers) "
                "produces exactly the positional digits; the parsing model equals the documented grammar as a total function on byte "
@@ -811,7 +813,7 @@ LEVEL_TEXT = ("Machine-checked Lean 4 theorems about an executable model of dash
               "(word, double word three-part split, medium repeated division, large divide-and-conquer tower with zero-padded chunks, "
               "power-of-two bit slicing across word boundaries); parser = documented grammar as a total function (malformed text is an "
               "error, never a number) and parse(print(n)) = n for both letter cases and signs; format_prepared = pad_integral spec; the "
-              "word-level byte encoders/decoders of convert.rs (unsigned and two's complement, inline and heap paths) equal the positional "
+              "word-level byte encoders/decoders of convert.rs (unsigned and two's complement, little AND big endian each mirrored as the code it is, inline and heap paths) equal the positional "
               "specification and are mutually inverse for every integer; the chunk routines (to_chunks all three paths, chunks_to_words with its "
               "shift/add kernels and buffer sizes) equal the base-2^k digits and are mutually inverse for every chunk size k >= 1; every "
               "fixed-size buffer of printers and parsers is modelled as a bounded array and proved never overrun; the lowest layer is mirrored "
